@@ -7,9 +7,13 @@
                   enters the channel, Get after it left), with the calling function
      deliver      the in-memory socket's ReadBatch copied a packet into buffer b
      write        the in-memory socket's WriteBatch was handed the buffers bs (and what it returned)
-     quiescent    all input consumed and nothing left to do (or: no event for 5 s, timeout = TRUE)
+     quiescent    all input consumed and nothing left to do (or: no event for 10 s, timeout = TRUE)
      final        after dataPlane.Shutdown returned; poollen = len(PacketPool.pool)
      race         a data race reported by the Go race detector (appended by checks/C14.py)
+     crash        a router goroutine panicked (log.HandlePanic ended the process; appended by
+                  checks/C14.py from the driver's log): no specification action
+     stuck        the router did not finish the traffic phase / Shutdown within 20-30 s (goroutines
+                  blocked in Get / Put): no specification action
 
    Get only of a free buffer (the pool never hands out a buffer in use), Put only of an owned one
    (exactly one return), sockets only ever see buffers owned by the stage that uses them, and at
@@ -126,6 +130,8 @@ Step == /\ l <= Len(Trace)
                   [] R.ev = "quiescent" -> Quiescent
                   [] R.ev = "final" -> Final
                   [] R.ev = "race" -> Bad("race:" \o R.a \o "|" \o R.b)
+                  [] R.ev = "crash" -> Bad("crash:router-goroutine-panicked-in=" \o R.where)
+                  [] R.ev = "stuck" -> Bad("stuck:router-goroutines-blocked-during-" \o R.phase)
                   [] OTHER -> Bad("no-spec-action:" \o R.ev)
 
 Done == /\ l = Len(Trace) + 1
